@@ -35,8 +35,14 @@ pub fn profile(id: &str) -> Profile {
             p.callers = (2, 4);
         }
         "C05" => {
-            p.opw = OpW { release: 8, desync: 10, futdesync: 6, sync: 3, ..OpW::default() };
+            // (round 6: futures are also polled, awaited and abandoned here, so that the last owner goes away while the queue is parked
+            // by a polled future, is being run by the task that awaits it, or has just been handed back by one)
+            p.opw = OpW { release: 8, desync: 10, futdesync: 6, sync: 3, pollonce: 4, await_: 3, dropfut: 2, futsync: 2, after: 2, opengate: 3, trysync: 1, ..OpW::default() };
             p.stepw = StepW { release: 3, nested_desync: 3, ..StepW::default() };
+            p.lifecycle_pct = 15;
+            p.lifecycle_release_pct = 50;
+            p.gates = (1, 3);
+            p.wakers = (0, 2);
             p.root_holds_pct = 0;
             p.queue_level_pct = 0;
             p.objects = (1, 3);
